@@ -241,7 +241,8 @@ func (x *Exec) frameCheck(st *State, a *Addr, pos token.Pos) {
 			if a.Kind == aElem {
 				ok = append(ok, eq(ref, e.ref))
 			}
-			if a.Kind == aObj || a.Kind == aField {
+			if (a.Kind == aObj || a.Kind == aField) && (e.typ == nil || isStruct(e.typ)) {
+				// elements that are struct objects (addressed by elemref); a slice of scalars has none
 				ok = append(ok, eq(sx("elemref_base", ref), e.ref))
 			}
 		case e.comp == a.Comp:
